@@ -111,7 +111,8 @@ func VH_FileObject() {
 	for i := 0; i < npaths; i++ {
 		nt := "PARENT"
 		if i == sel {
-			nt = []string{"NORMAL", "CREATE", "DELETE"}[vChoose("nametype", 3)]
+			// (with nametypes=5 this record too may be PARENT or UNKNOWN: no record is then an obvious object)
+			nt = []string{"NORMAL", "CREATE", "DELETE", "PARENT", "UNKNOWN"}[vChoose("nametype", vParam("nametypes", 3))]
 		}
 		is := strconv.Itoa(i)
 		d := map[string]string{"item": is, "name": "/p/n" + is, "inode": "10" + is, "dev": "08:0" + is, "rdev": "00:1" + is, "ouid": "5" + is, "ogid": "6" + is, "nametype": nt, "mode": "0100644"}
@@ -242,9 +243,21 @@ func VH_Conservation() {
 		d := map[string]string{}
 		pool := []string{"result", "addr", "acct", "exe", "syscall", "x1", "ses", "auid", "uid", "gid", "subj_user", "pid", "ppid", "comm", "cwd", "op"}
 		pool = pool[:vParam("npool", len(pool))]
+		if vParam("boundaryvals", 0) != 0 {
+			pool = []string{"ses", "auid", "uid", "gid", "pid", "ppid", "result"}
+		}
 		for _, k := range pool {
 			if vChoose("has-"+k, 2) == 1 {
 				d[k] = val()
+			}
+		}
+		if vParam("boundaryvals", 0) != 0 {
+			// one of the id-like keys carries a value that looks special (the all-ones id, -1, 0, the word
+			// the parser uses for unset ids): the coalescer has no business rewriting it
+			ids := []string{"uid", "gid", "auid", "ses", "pid", "ppid"}
+			k := ids[vChoose("boundarykey", len(ids))]
+			if _, ok := d[k]; ok {
+				d[k] = []string{"4294967295", "-1", "0", "unset", "4294967294"}[vChoose("boundaryval", 5)]
 			}
 		}
 		recs = append(recs, vRec{typ: t, data: d})
